@@ -285,6 +285,7 @@ async fn run_case(w: &mut Worker, c: &Case, tname: &str) -> Outcome {
     w.seq += 1;
     let vaddr = if c.st == 'A' { Ipv4Addr::new(127, 100 + w.wi as u8, (w.seq >> 8) as u8, w.seq as u8) } else { let a = exact_addr(w.wi, w.used); w.used += 1; a };
     { let mut g = PANICS.lock().unwrap(); g.retain(|(t, ..)| t != tname); }
+    { let mut g = EXPLODE_ERRS.lock().unwrap(); g.retain(|t| t != tname); }
     w.collected.lock().unwrap().clear();
     let Some(s) = connect_from(vaddr, w.port).await else { return discard("connect"); };
     let (r, mut wr) = s.into_split();
@@ -315,7 +316,10 @@ async fn run_case(w: &mut Worker, c: &Case, tname: &str) -> Outcome {
     // ---- the stream
     let mut tst = c.st; // the engine's own reading of where a well-behaved session would be (barriers only)
     let mut aligned = true;
-    let mut mp_bulks: Vec<bool> = vec![];
+    // UPDATEs with MP_REACH/MP_UNREACH: (index among the session's Bulks, whether a Bulk arrived) -> token `B?` either way;
+    // conventional UPDATEs that `process_update` refused: token `Bx` at that position
+    let mut mp_marks: Vec<(usize, bool)> = vec![];
+    let mut plain_refused: Vec<usize> = vec![];
     let mut notes = vec![];
     // the stream is written frame by frame as an RFC 4271 reader would cut it (length field, >= 19, complete), so that the
     // barriers below sit between frames even when the case glues frames or trailing bytes into one chunk; what follows
@@ -333,6 +337,7 @@ async fn run_case(w: &mut Worker, c: &Case, tname: &str) -> Outcome {
     for ch in &pieces {
         let n_k = frames.lock().unwrap().iter().filter(|(t, _)| *t == 4).count();
         let n_b = w.collected.lock().unwrap().iter().filter(|u| matches!(u, Update::Bulk(_)) && update_id(u) != Some(w.by_id)).count();
+        let n_e = EXPLODE_ERRS.lock().unwrap().iter().filter(|t| t.as_str() == tname).count();
         if c.split == 0 { let _ = wr.write_all(ch).await; } else { for piece in ch.chunks(c.split) { let _ = wr.write_all(piece).await; let _ = wr.flush().await; tokio::task::yield_now().await; } }
         let acc = if aligned { accepted_frame(ch) } else { None };
         if aligned && !(ch.len() >= 19 && u16::from_be_bytes([ch[16], ch[17]]) as usize == ch.len()) { aligned = false; }
@@ -353,9 +358,17 @@ async fn run_case(w: &mut Worker, c: &Case, tname: &str) -> Outcome {
             Some(2) if tst == 'E' => {
                 let col = w.collected.clone();
                 let by = w.by_id;
-                let got = wait_until(ARRIVE, || cl() || col.lock().unwrap().iter().filter(|u| matches!(u, Update::Bulk(_)) && update_id(u) != Some(by)).count() > n_b).await;
+                let tn2 = tname.to_string();
+                let bulks = move || col.lock().unwrap().iter().filter(|u| matches!(u, Update::Bulk(_)) && update_id(u) != Some(by)).count();
+                let b2 = bulks.clone();
+                // the UPDATE is either exploded into a Bulk or refused by `process_update` (logged at Error level)
+                let got = wait_until(ARRIVE, || cl() || b2() > n_b || EXPLODE_ERRS.lock().unwrap().iter().filter(|t| **t == tn2).count() > n_e).await;
                 if !got { notes.push("barrier.bulk-timeout".into()); }
-                mp_bulks.push(has_mp(ch));
+                let arrived = bulks() > n_b;
+                let tn3 = tname.to_string();
+                let refused = EXPLODE_ERRS.lock().unwrap().iter().filter(|t| **t == tn3).count() > n_e;
+                // (if the session had already ended neither happens: no token)
+                if has_mp(ch) { if arrived || refused { mp_marks.push((n_b, arrived)); } } else if !arrived && refused { plain_refused.push(n_b); }
             }
             Some(3) if c.debug && ch.len() < 21 => { wait_until(NOTIF_WAIT, || cl()).await; }
             _ => {}
@@ -372,16 +385,23 @@ async fn run_case(w: &mut Worker, c: &Case, tname: &str) -> Outcome {
     let tx: Vec<String> = frames.lock().unwrap()[tx_base..].iter().map(|(t, b)| match t { 1 => "O".to_string(), 4 => "K".to_string(), 3 => format!("N{}.{}", b.first().copied().unwrap_or(0), b.get(1).copied().unwrap_or(0)), x => format!("T{x}") }).collect();
     let ups: Vec<Update> = w.collected.lock().unwrap().iter().filter(|u| update_id(u) != Some(w.by_id)).cloned().collect();
     let mut bi = 0usize;
-    let rxs: Vec<String> = ups.iter().map(|u| match u {
-        Update::Bulk(ps) => { let mp = mp_bulks.get(bi).copied().unwrap_or(false); bi += 1; if mp { "B?".to_string() } else { format!("B{}", ps.len()) } }
-        Update::Withdraw(_, None) => "W".to_string(),
-        Update::Withdraw(_, Some(_)) => "Waf".to_string(),
-        Update::Single(_) => "S1".to_string(),
-        Update::WithdrawBulk(_) => "WB".to_string(),
-        Update::UpstreamStatusChange(_) => "EOS".to_string(),
-        Update::OutputStream(_) => "OS".to_string(),
-        _ => "other".to_string(),
-    }).collect();
+    let mut rxs: Vec<String> = vec![];
+    let phantoms = |bi: usize, rxs: &mut Vec<String>| { for (i, arrived) in &mp_marks { if *i == bi && !*arrived { rxs.push("B?".to_string()); } } for i in &plain_refused { if *i == bi { rxs.push("Bx".to_string()); } } };
+    for u in &ups {
+        if matches!(u, Update::Bulk(_)) || matches!(u, Update::Withdraw(_, None)) { if bi != usize::MAX { phantoms(bi, &mut rxs); } }
+        let tok = match u {
+            Update::Bulk(ps) => { let mp = mp_marks.iter().any(|(i, a)| *i == bi && *a); bi += 1; if mp { "B?".to_string() } else { format!("B{}", ps.len()) } }
+            Update::Withdraw(_, None) => { bi = usize::MAX; "W".to_string() }
+            Update::Withdraw(_, Some(_)) => "Waf".to_string(),
+            Update::Single(_) => "S1".to_string(),
+            Update::WithdrawBulk(_) => "WB".to_string(),
+            Update::UpstreamStatusChange(_) => "EOS".to_string(),
+            Update::OutputStream(_) => "OS".to_string(),
+            _ => "other".to_string(),
+        };
+        rxs.push(tok);
+    }
+    if bi != usize::MAX { phantoms(bi, &mut rxs); }
     let live = live_has(w);
     let panics: Vec<(String, u32, String)> = { let mut g = PANICS.lock().unwrap(); let (mine, rest): (Vec<_>, Vec<_>) = g.drain(..).partition(|(t, ..)| t == tname); *g = rest; mine.into_iter().map(|(_, f, l, m)| (f, l, m)).collect() };
     let sites: Vec<(String, String)> = panics.iter().map(|(f, l, m)| site_of(f, *l, m)).collect();
@@ -453,10 +473,12 @@ fn run_all(cases: Vec<Case>, nthreads: usize) -> Vec<Outcome> {
 
 // ------------------------------------------------------------------ logger: what a deployment with that level evaluates
 
+/// `error!("unexpected state: {e}")` of `Processor::process` (an UPDATE that `process_update` could not explode), per runtime thread
+static EXPLODE_ERRS: Mutex<Vec<String>> = Mutex::new(Vec::new());
 struct FmtLogger;
 impl log::Log for FmtLogger {
     fn enabled(&self, _: &log::Metadata) -> bool { true }
-    fn log(&self, r: &log::Record) { let s = format!("{}", r.args()); std::hint::black_box(s); }
+    fn log(&self, r: &log::Record) { let s = format!("{}", r.args()); if r.level() == log::Level::Error && s.starts_with("unexpected state: error") { EXPLODE_ERRS.lock().unwrap().push(std::thread::current().name().unwrap_or("").to_string()); } if std::env::var("VERIF_LOG").is_ok() { eprintln!("[{}] {} {}", r.level(), r.target(), s); } std::hint::black_box(s); }
     fn flush(&self) {}
 }
 static LOGGER: FmtLogger = FmtLogger;
@@ -494,6 +516,9 @@ fn base_msg(g: &mut Gen, ty: u8) -> Vec<u8> {
             if g.below(3) == 0 { attrs.extend_from_slice(&[0x80, 4, 4, 0, 0, 0, 9]); }
             if g.below(4) == 0 { attrs.extend_from_slice(&[0xC0, 8, 4, 0xFD, 0xE8, 0, 1]); }
             if g.below(5) == 0 { attrs.extend_from_slice(&[0xD0, 99, 0, 3, 1, 2, 3]); } // extended length, unknown type
+            // MP_REACH (IPv6 unicast, one /32) / MP_UNREACH; sometimes with a value too short for the afi/safi peek
+            if g.below(7) == 0 { let mut v = vec![0, 2, 1, 16]; v.extend_from_slice(&[0x20, 1, 0x0d, 0xb8, 0, 0, 0, 0, 0, 0, 0, 0, 0, 0, 0, 1]); v.push(0); v.extend_from_slice(&[32, 0x20, 1, 0x0d, 0xb8]); let cut = if g.below(4) == 0 { g.below(v.len()) } else { v.len() }; v.truncate(cut); attrs.extend_from_slice(&[0x80, 14, v.len() as u8]); attrs.extend_from_slice(&v); }
+            if g.below(9) == 0 { let mut v = vec![0, 2, 1, 32, 0x20, 1, 0x0d, 0xb8]; let cut = if g.below(4) == 0 { g.below(v.len()) } else { v.len() }; v.truncate(cut); attrs.extend_from_slice(&[0x80, 15, v.len() as u8]); attrs.extend_from_slice(&v); }
             let mut nlri = vec![];
             if !attrs.is_empty() { for _ in 0..g.below(3) { let k = g.next_k(); let bits = g.pick(&[0u8, 8, 16, 24, 32, 20]); nlri.push(bits); let full = [10, (k >> 8) as u8, k as u8 & 0xF0, 0]; nlri.extend_from_slice(&full[..((bits as usize) + 7) / 8]); } }
             if g.below(4) == 0 && !wd.is_empty() { nlri.extend_from_slice(&wd); }
